@@ -101,8 +101,17 @@ class FullGen(Gen):
     def str_extra(self, sc):
         """Starlark-only string forms (quote style, repr, f-strings)."""
         r = self.r
-        k = r.randrange(7)
+        k = r.randrange(10)
         vs = sc.all_vars()
+        if k >= 7:
+            # one-argument formatting (specialised by the compiler) of values that may themselves be tuples
+            x = self.ch([self.expr(sc, TIS, 2), "(%s,)" % self.expr(sc, INT, 2), "()", "(%s, %s)" % (self.expr(sc, INT, 2), self.expr(sc, STR, 2)),
+                         self.ch(vs).name if vs else "(1, 2)", self.expr(sc, self.ch([INT, STR, LI, DSI]), 2), "((1, 2),)", "[(1,)]", "{\"a\": 1}"])
+            fmt = self.ch(['"<%s>"', '"%s"', '"a%sb"', '"%s%%"', '"%%%s"', '"<%r>"', '"%d"', '"%s %s"', '"<%s>"', '"<%s>"'])
+            form = self.ch(["(%s %% (%s,))", "(%s %% %s)", "(%s %% (%s,))", "%s.format(%s)"])
+            if form.endswith(".format(%s)"):
+                fmt = self.ch(['"<{}>"', '"{}"', '"a{}b"', '"{0}"', '"{0}{0}"', '"{!r}"', '"{{{}}}"', '"{}{}"'])
+            return form % (fmt, x)
         if k == 0 and vs:
             return "repr(%s)" % self.ch(vs).name
         if k == 1 and vs:
